@@ -63,6 +63,10 @@ JOBS = list(JOBS) + [j for j in _il.import_module("units.c05").JOBS if j.name in
 JOBS = list(JOBS) + [j for j in _il.import_module("units.c06").JOBS if j.name in ('c06.block_on_stack',)]
 JOBS = list(JOBS) + [j for j in _il.import_module("units.c01").JOBS if j.name in ('c01.create',)]
 JOBS = list(JOBS) + [j for j in _il.import_module("units.c02").JOBS if j.name in ('c02.yield',)]
+# the final jump away from a finished thread (and the switch into the scheduler it may take): the worker whose queue and
+# scheduler context are used must be the one the thread is running on NOW, also after its destructors (user code) ran
+JOBS = list(JOBS) + [j for j in _il.import_module("units.c12").JOBS if j.name in ('c12.cleanup', 'c12.entry_point_1', 'c12.entry_point_2')]
+JOBS = list(JOBS) + [j for j in _il.import_module("units.c08").JOBS if j.name in ('c08.signal.bounded',)]
 META = {
  "level": "proof",
  "level_text": "Two contract checks on the real text. (1) CBMC: for every 64-bit stack address myth_make_context_empty / "
